@@ -39,3 +39,8 @@ Print Assumptions C07_append_refines_run.
 Print Assumptions C07_append_K3_refuted.
 Print Assumptions C07_append_old_condition_refuted.
 Print Assumptions C07_unbounded_refuted.
+
+(* non-vacuity (Proofs/ExampleFacts.v, by computation): a 49-event history with an append edit (Update path), a non-append edit (Rescore), a cloned and a dropped injector ends in a quiescent state whose snapshot holds four matches with score ties broken by length and index; the premises of C07_converges hold and the conclusion is instantiated (from-scratch set [0;2;3;4]) *)
+From NV Require Proofs.ExampleFacts.
+Definition C07_nonvacuous := ExampleFacts.C07_nonvacuous.
+Print Assumptions C07_nonvacuous.
